@@ -31,7 +31,7 @@ for f in sorted(os.listdir(root)):
     s=open(p).read()
     h.update(f.encode()); h.update(s.encode())
     n=0
-    for a,b in (('std::sync::','loom::sync::'),('std::thread::','loom::thread::'),('std::cell::UnsafeCell','loom::cell::UnsafeCell')):
+    for a,b in (('std::sync::','loom::sync::'),('std::thread::','loom::thread::')):  # (UnsafeCell is left to Miri: loom's has a different API)
         c=s.count(a); n+=c; s=s.replace(a,b)
     # grouped imports: use std::{sync::Arc, ...}
     grouped=len(re.findall(r'use\s+std::\{[^}]*\b(sync|thread)::',s))
